@@ -276,3 +276,10 @@ def e1_records(tier):
         for i in c.interfaces:
             recs.append(model.e1_interface_record("basic:" + pid + ":" + i.module, i))
     return recs
+
+
+def report_failed(res, cp, what="basic"):
+    """A corpus program the model calls valid that rustc rejects is a violation of every property whose corpus it is."""
+    for pid, diags in sorted(cp.failed.items()):
+        res.violation({"kind": "compile", "cls": "valid_program_rejected", "pid": pid, "diags": diags[:3], "codes": sorted(set(d["code"] for d in diags if d.get("code"))),
+                       "what": "%s corpus program %s (valid by the model) does not compile against the current tree: %s %s" % (what, pid, diags[0].get("code"), diags[0]["message"][:300])})
